@@ -114,6 +114,28 @@ def build(rng: random.Random, kind: str):
         axes = [phi(), zed()]
         cls = sp.CylindricalSurfaceHistogram
     bins = [np.array(a) if gapped else np.array(a, dtype=float) for a in axes]
+    if not gapped and kind in ("h1", "h2", "hnd", "radial", "polar", "spherical", "cylindrical") and rng.random() < 0.15:
+        # edges given as integers (a python list of ints, time stamps in an int32 array, ADC counts in int16): the bins are the same intervals
+        # as with float edges, and every centre / width / measure is the real number, not one reduced modulo the integer type
+        which = [0] if kind in ("radial", "polar", "spherical") else ([0, 2] if kind == "cylindrical" else list(range(len(bins))))
+        for ax in which:
+            n_ = len(bins[ax]) - 1
+            it = rng.choice(["int64", "int32", "int16"])
+            if it == "int64":
+                step, start = rng.choice([1_000_000, 3_000_000, 7]), 0
+            elif it == "int32":
+                step, start = rng.choice([50_000_000, 1000, 40000]), rng.choice([0, 1_600_000_000]) if kind in ("h1", "h2", "hnd") else 0
+            else:
+                step, start = rng.choice([2000, 9000]), rng.choice([0, 15000, -30000]) if kind in ("h1", "h2", "hnd") else 0
+            ed = [start]
+            for i in range(n_):
+                ed.append(ed[-1] + step * (1 + (i % 2)))  # widths alternate: irregular bins
+            top_ = {"int64": 2**62, "int32": 2**31 - 1, "int16": 2**15 - 1}[it]
+            if ed[-1] > top_ or 2 * ed[-1] <= top_ and it != "int64":
+                continue  # (narrow types: only edges whose sums leave the type are of interest)
+            bins[ax] = np.array(ed, dtype=it) if it != "int64" or rng.random() < 0.5 else np.array([int(x) for x in ed])
+            if ax == 0 and kind in ("radial", "polar", "spherical", "cylindrical"):
+                R = float(ed[-1])  # the covered region reaches that far now
     shape = tuple(len(b) if gapped else len(b) - 1 for b in bins)
     dtype = rng.choice(["int64", "float64", "int16", "float32", "int32"])
     if np.dtype(dtype).kind in "iu":
@@ -142,7 +164,7 @@ def build(rng: random.Random, kind: str):
         h = cls(bins, freq, **kw)
     if set_radius is not None and "radius" not in kw:
         h.radius = set_radius
-    pairs = [np.asarray(b) if gapped else np.stack([b[:-1], b[1:]], axis=1) for b in bins]
+    pairs = [np.asarray(b) if gapped else np.stack([np.asarray(b, dtype=float)[:-1], np.asarray(b, dtype=float)[1:]], axis=1) for b in bins]
     return h, pairs, full, R
 
 
